@@ -7,7 +7,7 @@ extracted model's; plus the end-to-end differential of the real CLI.  Oracle on 
 same sets for every interleaving / sibling order of one tree pair; each entry deleted before its
 parent; all deletions before any creation; every folder created before its contents."""
 import os, sys, json, tempfile, shutil, itertools
-import vlib, e2e, sync_e2e, scripted
+import vlib, e2e, sync_e2e, scripted, decision_family
 
 THEOREMS = ['C13_plan_deterministic', 'C13_interleaving_independent', 'C13_sibling_order',
             'C13_children_deleted_first', 'C13_parents_created_first', 'C13_deletes_before_creates',
@@ -219,6 +219,8 @@ def check(run):
                          {'scenario': it[2].to_json(), 'sched_a': first[1], 'sched_b': it[1], 'ls_b': it[3], 'ld_b': it[4],
                           'trace_a': first[5]['dest'], 'trace_b': it[5]['dest']})
                 break
+    # the planner's decision table through the real boss, exhaustive over class representatives, both arrival orders
+    decision_family.family(run, binary, jbin, quick)
     # end-to-end: the real CLI with the real listing orders
     base = tempfile.mkdtemp(prefix='c13_', dir=vlib.CACHE)
     try:
